@@ -63,7 +63,12 @@ impl MaterializedSink {
         let meta = self
             .store
             .append_batch(self.schema_guard.snapshots(), batch)?;
-        self.high_water = meta.high_water_mark;
+        // Batches arrive per shard, not in (timestamp, event_id) order: the mark must never
+        // move backwards, otherwise rows already stored are delivered and stored again.
+        self.high_water.advance(
+            meta.high_water_mark.timestamp,
+            meta.high_water_mark.event_id,
+        );
         let rows_added = meta.row_count as u64;
         let bytes_added = meta.compressed_len as u64;
         self.total_rows = self.total_rows.saturating_add(rows_added);
@@ -109,8 +114,14 @@ impl MaterializedSink {
     }
 
     fn bootstrap_from_manifest(&mut self) {
-        if let Some(last) = self.store.frames().last() {
-            self.high_water = last.high_water_mark;
+        let marks: Vec<HighWaterMark> = self
+            .store
+            .frames()
+            .iter()
+            .map(|frame| frame.high_water_mark)
+            .collect();
+        for mark in marks {
+            self.high_water.advance(mark.timestamp, mark.event_id);
         }
 
         self.recompute_totals();
